@@ -263,7 +263,13 @@ func ExecOp(op Op, env *Env) *OpResult {
 		}
 		o, before, lp := mkOpts()
 		res.Kind = model.KRoot
-		call = func() { res.Err = spec.ExpandSpec(sw, o); res.OptsSame, res.OptsDiff = optsEqual(o, before, lp) }
+		if op.Base == "<nil-options>" {
+			// no options at all: the root is assumed to live in the working directory, documents
+			// arrive through the package-level loader
+			call = func() { res.Err = spec.ExpandSpec(sw, nil) }
+		} else {
+			call = func() { res.Err = spec.ExpandSpec(sw, o); res.OptsSame, res.OptsDiff = optsEqual(o, before, lp) }
+		}
 		result = func() interface{} { return sw }
 	case "ExpandSchema", "ExpandSchemaWithBasePath":
 		eb, err := elementBytes(w, op.Ptr)
@@ -281,9 +287,13 @@ func ExecOp(op Op, env *Env) *OpResult {
 			call = func() { res.Err = spec.ExpandSchema(sch, rootVal, cache) }
 		} else {
 			o, before, lp := mkOpts()
-			call = func() {
-				res.Err = spec.ExpandSchemaWithBasePath(sch, cache, o)
-				res.OptsSame, res.OptsDiff = optsEqual(o, before, lp)
+			if op.Base == "<nil-options>" {
+				call = func() { res.Err = spec.ExpandSchemaWithBasePath(sch, cache, nil) }
+			} else {
+				call = func() {
+					res.Err = spec.ExpandSchemaWithBasePath(sch, cache, o)
+					res.OptsSame, res.OptsDiff = optsEqual(o, before, lp)
+				}
 			}
 		}
 		result = func() interface{} { return sch }
